@@ -57,20 +57,30 @@ def stable_key(name: str, src, qual: str) -> str:
     return re.sub(r"L\+(\d+)", rep, name)
 
 
+_SRC_CACHE: dict = {}
+
+
 def _verify_one(args):
-    qual, srcroot, tier = args
+    qual, srcroot, tier, family, variant = args
     t0 = time.time()
     try:
         from . import engine, solve
         from .source import Source
 
         load_contracts()
-        src = Source(srcroot)
-        r = engine.verify_function(src, qual)
+        if srcroot not in _SRC_CACHE:
+            _SRC_CACHE[srcroot] = Source(srcroot)
+        src = _SRC_CACHE[srcroot]
+        r = engine.verify_function(src, qual, family, variant)
         obs = []
         cvc_ms = 20000 if tier == "quick" else 120000
+        # group by path (identical hypothesis list) -> one incremental solver per path
+        groups: dict = {}
         for ob in r["obligations"]:
-            solve.discharge(ob, use_cvc5=True, cvc5_ms=cvc_ms)
+            groups.setdefault(tuple(h.get_id() if hasattr(h, "get_id") else hash(h) for h in ob.hyps), []).append(ob)
+        for g in groups.values():
+            solve.discharge_group(g, use_cvc5=True, cvc5_ms=cvc_ms)
+        for ob in r["obligations"]:
             sample = None
             if ob.kind == "ensures" and ob.status == "proved" and not obs_has_sample(obs):
                 try:
@@ -95,11 +105,28 @@ def obs_has_sample(obs):
 
 
 def verify_functions(quals, srcroot, tier):
+    """One task per (function, family, parameter-type variant); results merged per function."""
     if not quals:
         return []
+    from . import engine
+
+    load_contracts()
+    tasks = []
+    for q in quals:
+        for fam, k in engine.n_variants(q):
+            tasks.append((q, srcroot, tier, fam, k))
     ctx = mp.get_context("fork")
-    with ctx.Pool(min(NPROC, len(quals))) as pool:
-        return pool.map(_verify_one, [(q, srcroot, tier) for q in quals], chunksize=1)
+    with ctx.Pool(min(NPROC, len(tasks))) as pool:
+        parts = pool.map(_verify_one, tasks, chunksize=1)
+    merged: dict = {}
+    for r in parts:
+        m = merged.setdefault(r["qual"], {"qual": r["qual"], "out_of_reach": None, "hash": r.get("hash"), "obligations": [], "wall": 0.0, "error": None})
+        m["obligations"] += r["obligations"]
+        m["wall"] += r["wall"]
+        m["error"] = m["error"] or r["error"]
+        m["out_of_reach"] = m["out_of_reach"] or r["out_of_reach"]
+        m["hash"] = m["hash"] or r.get("hash")
+    return [merged[q] for q in quals]
 
 
 def load_ledger() -> dict:
@@ -220,7 +247,7 @@ def assumption_scan(reg) -> dict:
 
 def replay_obligation(w: dict, src="/repo") -> int:
     reg = load_contracts()
-    r = _verify_one((w["func"], src, "quick"))
+    r = verify_functions([w["func"]], src, "quick")[0]
     for ob in r["obligations"]:
         if ob["name"] == w["obligation"]:
             print(f"{ob['name']}: {ob['status']} {ob['reason']} {ob.get('refuter', '')}")
